@@ -170,6 +170,12 @@ func readFullLine(reader *bufio.Reader) (string, error) {
 		l, more, err := reader.ReadLine()
 
 		if err != nil {
+			// The input ended right after a full buffer of a line without a
+			// final newline: what was read so far is the last line
+			if err == io.EOF && line != nil {
+				break
+			}
+
 			return "", err
 		}
 
